@@ -420,7 +420,12 @@ fn c16_check(c: &WebCase, st: &mut Stats) -> CheckResult {
         return Ok(Outcome::Ok);
     }
     let parsing = if c.hybrid { "Hybrid" } else { "Naive" };
-    let r = cl.multipart(&mut jar, "/adf/add", &[("name", "p"), ("code", &code), ("parsing", parsing)])?;
+    // a fifth of the problems are uploaded as a file part instead of the code field
+    let as_file = stable_hash(&code) % 5 == 0;
+    let r = cl.multipart(&mut jar, "/adf/add", &[("name", "p"), (if as_file { "@file" } else { "code" }, &code), ("parsing", parsing)])?;
+    if as_file {
+        st.label("uploaded_as_file");
+    }
     if r.status != 200 {
         return Err(format!("POST /adf/add: status {} {}", r.status, r.text()));
     }
